@@ -6,6 +6,9 @@ Oracle (independent of the Lean model): exact facets of the Minkowski difference
 of epa.py is compared step by step on recorded polytope states (faces array per iteration,
 support point from recording proxies), on whole runs replayed from the trace, and the
 Lean-verified `facesCertificate` is executed in exact rational arithmetic on the returned faces.
+The model is the code after the upstream repair of F-epa-inward-winding (oriented initial simplex, fix_ccw swap
+through a copy); the witness scenes of that finding (known_findings.json, status "fixed") run first as regression
+inputs through the model comparison and the oracle.
 """
 import itertools
 import math
@@ -25,18 +28,21 @@ RULE = ("overlapping pairs of convex polytopes (Box, ConvexHullVertices, MeshGra
         "overlap and epa is actually run; distinct = distinct (pair, simplex) input")
 EXPLANATION = ("success_separates / length_ge_depth / minimal_under_inv_partial / gap_under_inv are proved for every "
                "convex set and every polytope state (exit-branch theorems with an abstract support oracle); "
-               "inv_initial + initFaces_outward_iff say exactly which simplex orders start with a valid invariant; "
+               "inv_initial: the invariant holds at the start for every complete simplex of non-zero volume in any row "
+               "order (epa orients the rows first; the pre-repair statements are kept as ..._before_fix); "
                "this run compares the Lean model with epa.py step by step on recorded states, executes the "
                "Lean-verified faces certificate on the returned faces, and checks the property itself on the real "
                "code against exact Minkowski-difference facets")
 PARTIAL = {
     "minimal_under_inv_partial": "full statement wanted: success => |mtv| < PenDepth + epsilon for every run. Proved: the "
                                  "same conclusion under the hypothesis EpaInv on the current faces (unit normals, d_f >= 0, "
-                                 "intersection of the inner half-spaces contained in A-B), and EpaInv at the start for "
-                                 "outward-wound simplices (inv_initial). Missing: preservation of EpaInv by "
-                                 "find_triangles_facing_point + extend_with_point (not proved; false for inward-wound simplices, "
-                                 "after a norm<0.5 skip or a loose-edge overflow). The run checks the exact depth on the real "
-                                 "code and the certificate on the returned faces instead",
+                                 "intersection of the inner half-spaces contained in A-B), and EpaInv at the start for every "
+                                 "complete simplex of non-zero volume with the origin inside, in any row order (inv_initial; no "
+                                 "winding hypothesis since _initialize_from_simplex orients the rows). Missing: preservation of "
+                                 "EpaInv by find_triangles_facing_point + extend_with_point (not proved; false after a norm<0.5 "
+                                 "skip or a loose-edge overflow, and for zero-volume simplices EpaInv does not hold at the "
+                                 "start). The run checks the exact depth on the real code and the certificate on the returned "
+                                 "faces instead",
     "gap_under_inv": "touching contact (gap < epsilon after the translation) is proved under EpaInv only; same missing "
                      "preservation lemma",
     "facesCertificate_sound_partial": "proved: certificate => closed consistently oriented surface, no degenerate face, stored "
@@ -61,18 +67,20 @@ TRUSTED = ["epa.py contains no numba code: there is no second (JIT) engine to co
 
 MANIFEST = dict(
     text=("Lean S2 theorems for the success exit of epa (separation, |mtv| >= depth for every polytope state, "
-          "|mtv| < depth + epsilon and gap < epsilon under the polytope invariant, invariant at start iff the simplex "
-          "is wound outward, as-is counterexamples for inward winding and for the view-aliased fix_ccw swap), Lean S3 "
+          "|mtv| < depth + epsilon and gap < epsilon under the polytope invariant, invariant at start for every complete "
+          "non-flat simplex in any row order, before_fix/fixed theorem pairs for the repaired inward winding and fix_ccw "
+          "swap, as-is counterexample for zero-volume simplices), Lean S3 "
           "faces certificate run in exact arithmetic on returned faces, step-wise correspondence of the model with "
           "epa.py, exact Minkowski-difference-facet oracle on the real code."),
     note=("trusted: Lean kernel + Mathlib (propext/Classical.choice/Quot.sound); preservation of the polytope invariant "
           "by the expansion step is not proved (PARTIAL); rounding not modelled; qhull facets as ground truth; "
-          "known findings: degenerate simplex from gjk, inward-wound simplex + broken fix_ccw swap, max_faces capacity."),
+          "known findings: degenerate (incomplete / zero-volume) simplex from gjk, max_faces capacity; fixed upstream: "
+          "inward-wound simplex + view-aliased fix_ccw swap (F-epa-inward-winding, replayed as regression input)."),
     technique="Lean 4 exit-branch theorems on hand-written model + step-wise correspondence + Lean-verified certificate + exact facet oracle",
     design="§7 C07")
 
 F_DEGENERATE = "F-epa-degenerate-simplex"
-F_WINDING = "F-epa-inward-winding"
+F_WINDING_FIXED = "F-epa-inward-winding"      # repaired upstream: regression scenes only, never attached
 F_CAPACITY = "F-epa-capacity"
 
 TOL = 1e-6
@@ -613,9 +621,8 @@ def classify(case, out, flips=None):
     cls = simplex_class(case["simplex"], case.get("n_valid", 4))
     if cls in ("incomplete", "flat"):
         return F_DEGENERATE
-    if cls == "inward":
-        # all four initial normals point inward (never re-oriented): the whole class is the finding
-        return F_WINDING
+    # (cls == "inward": rows handed over with <(B-A)x(C-A), D-A> > 0. epa orients them itself since the upstream
+    #  repair of F-epa-inward-winding, so a failure in this class is an ordinary violation, not a known finding.)
     if out["status"] == "assert" and is_poly(case["A"]) and is_poly(case["B"]):
         # genuine capacity overflow: with a large face array the same input must give the exact answer
         A, B = make(case["A"]), make(case["B"])
@@ -696,10 +703,10 @@ def correspond_trace(ctx, drv, case, kw, rec, plan):
     for k, it in enumerate(rec["iters"]):
         if "w" not in it:
             continue
-        cid = drv.add("C07.step", "F", enc_params(kw) + ["asis"] + enc_faces(it["faces"]) + enc_v(it["w"]))
+        cid = drv.add("C07.step", "F", enc_params(kw) + ["cur"] + enc_faces(it["faces"]) + enc_v(it["w"]))
         plan.append(("step", cid, case, kw, it, k == len(rec["iters"]) - 1, rec["out"]))
     ws = [it["w"] for it in rec["iters"] if "w" in it]
-    toks = enc_params(kw) + ["asis"]
+    toks = enc_params(kw) + ["cur"]
     for row in case["simplex"]:
         toks += enc_v(row)
     toks += [str(len(ws))]
@@ -771,8 +778,8 @@ def compare_step(ctx, res, case, kw, it, last, out):
     ctx.branch("loose", "overflow" if ov else "n<=%d" % (8 * ((len(loose) + 7) // 8)))
     nskip = len(kept) + len(loose) - len(after)
     ctx.branch("extend", "skipped(norm<0.5)=%d" % nskip)
-    flips = sum(1 for f in after[len(kept):] if np.array_equal(f[0], f[1]))
-    ctx.branch("fix_ccw", "flip" if flips else "keep")
+    if any(np.array_equal(f[0], f[1]) for f in after[len(kept):]):
+        ctx.branch("fix_ccw", "new face (b,b,c): pre-repair aliasing or duplicate support point")
     if "kept" not in it or "after" not in it:
         return
     ok = (faces_close(kept, it["kept"], scale) and loose.shape == it["loose"].shape
@@ -852,10 +859,45 @@ def py_certificate(faces, slack):
     return [int(closed and nondeg and nout and orig and vin), int(closed), int(nondeg), int(nout), int(orig), int(vin)]
 
 
+def shift_spec(spec, t):
+    import copy
+    sp = copy.deepcopy(spec)
+    t = np.asarray(t, dtype=float)
+    if sp["kind"] == "hull":
+        sp["vertices"] = (np.array(sp["vertices"], dtype=float) + t).tolist()
+    elif sp["kind"] == "sphere":
+        sp["center"] = (np.array(sp["center"], dtype=float) + t).tolist()
+    else:
+        T = np.array(sp["pose"], dtype=float)
+        T[:3, 3] += t
+        sp["pose"] = T.tolist()
+    return sp
+
+
+def make_shallow(rng, sa, sb):
+    """b moved along the direction of least penetration until the polytopes overlap by only 1e-8 … 1e-5 of their size
+    (resting / grazing contact: every bias and tolerance of the polytope bookkeeping is larger than the answer)"""
+    try:
+        n, d, _ = md_facets(world_vertices(sa), world_vertices(sb))
+    except Exception:  # noqa
+        return sb
+    if len(d) == 0 or d.min() <= 0:
+        return sb
+    k = int(np.argmin(d))
+    size = max(feature_scale(sa), feature_scale(sb))
+    eps = size * 10 ** rng.uniform(-8, -5)
+    if d[k] <= eps:
+        return sb
+    return shift_spec(sb, n[k] * (d[k] - eps))
+
+
 def gen_case(ctx, stream, own_simplex_p=0.35):
     """-> list of cases for one overlapping pair (gjk's simplex + permutations / own simplices)"""
     rng = ctx.rng
     sa, sb = gen_pair(rng, stream)
+    if stream == "G" and is_poly(sa) and is_poly(sb) and rng.random() < 0.12:
+        sb = make_shallow(rng, sa, sb)
+        ctx.branch("pair-family", "shallow")
     A, B = make(sa), make(sb)
     try:
         dist, simplex, n_valid = run_gjk(A, B)
@@ -940,12 +982,26 @@ def corpus_cases():
             c["simplex"], c["n_valid"] = s.tolist(), nv
         else:
             c["n_valid"] = 4
-            if frac_det(np.array(c["simplex"])) > 0:
-                s = np.array(c["simplex"])[[1, 0, 2, 3]]
-                c["simplex"] = s.tolist()
         c["src"] = "corpus"
         c["stream"] = "L"
         out.append(c)
+        if c["n_valid"] == 4 and frac_det(np.array(c["simplex"])) != 0:
+            c2 = dict(c)                                   # the same four points in the other winding
+            c2["simplex"] = np.array(c["simplex"])[[1, 0, 2, 3]].tolist()
+            out.append(c2)
+    return regression_cases() + out
+
+
+def regression_cases():
+    """witness scenes of findings repaired upstream (known_findings.json, status "fixed", property C07): they run
+    first, through the model comparison and through the property oracle; a failure is an ordinary VIOLATION"""
+    out = []
+    for k in core.load_known():
+        w = k.get("witness")
+        if k.get("status") == "fixed" and k.get("property") == "C07" and isinstance(w, dict):
+            for sc in w.get("scenes", []):
+                out.append({"A": sc["A"], "B": sc["B"], "simplex": sc["simplex"], "n_valid": sc.get("n_valid", 4),
+                            "src": "regression:" + k["id"], "stream": "R"})
     return out
 
 
@@ -974,6 +1030,8 @@ def correspondence(ctx):
             kw = {"max_iter": rng.choice([1, 2, 3, 5])}                 # success=False exit
         elif r < 0.36:
             kw = {"epsilon": rng.choice([1e-3, 1e-5, 1e-12])}
+        if case.get("src", "").startswith(("regression", "corpus")):
+            kw = {}                 # default parameters: the property oracle applies to these
         if kw:
             kw = {"max_iter": 64, "max_loose_edges": 32, "max_faces": 64, "epsilon": 1e-8, **kw}
         rec = traced_epa(case["simplex"], A, B, **kw)
@@ -995,14 +1053,15 @@ def correspondence(ctx):
         toks = []
         for row in case["simplex"]:
             toks += enc_v(row)
-        cid = drv.add("C07.init", "F", toks)
+        cid = drv.add("C07.init", "F", ["cur"] + toks)
         if rec["iters"]:
             init_plan.append((cid, case, rec["iters"][0]["faces"]))
         # --- steps + whole run
         correspond_trace(ctx, drv, case, kw, rec, plan)
-        # --- fix_ccw samples (as-is, incl. the aliasing)
+        ctx.branch("fix_ccw", "run with flip" if rec["flips"] else "run without flip")
+        # --- fix_ccw samples (vertices 0/1 swapped through a copy, normal negated)
         for (before, after) in rec.get("flip_samples", [])[:2]:
-            cid = drv.add("C07.fixccw", "F", ["asis", f2h(1e-6)] + enc_faces([before])[1:])
+            cid = drv.add("C07.fixccw", "F", ["cur", f2h(1e-6)] + enc_faces([before])[1:])
             plan.append(("fix", cid, case, kw, (before, after), None, None))
         # --- Lean certificate on the returned faces, exact rationals
         if out["status"] == "ok" and not kw and np.all(np.isfinite(out["faces"])):
@@ -1017,9 +1076,26 @@ def correspondence(ctx):
         if parts[0] != "ok":
             ctx.broke("correspondence", "Polytope._initialize_from_simplex", res.get(cid, "")[:200], {"case": core.jsonable(case)})
             continue
-        faces, _ = dec_faces(parts, 1)
+        sw, det_model = int(parts[1]), h2f(parts[2])
+        faces, _ = dec_faces(parts, 3)
+        # python-side mirror of the orientation step, decided in exact rational arithmetic on the float rows
+        sx = np.array(case["simplex"], dtype=float)
+        exact_sign = frac_det(sx)
+        scale = max(1.0, float(np.abs(sx).max()))
+        det_float = float(np.dot(np.cross(sx[1] - sx[0], sx[2] - sx[0]), sx[3] - sx[0]))
+        tie = abs(det_float) <= 1e-12 * scale ** 3 and exact_sign != (det_float > 0) - (det_float < 0)
+        ctx.branch("init", "rows 1,2 exchanged" if sw else ("flat simplex, as it comes" if exact_sign == 0 else "rows as they come"))
+        if sw != int(exact_sign > 0) and not tie and abs(det_float) > 1e-12 * scale ** 3:
+            ctx.broke("correspondence", "Polytope._initialize_from_simplex (orientation test)",
+                      "model exchanged=%d, exact sign of <(B-A)x(C-A),D-A> = %d (float %r, model %r)"
+                      % (sw, exact_sign, det_float, det_model), {"case": core.jsonable(case)})
+            continue
         if not faces_close(faces, faces0, 1.0):
-            ctx.broke("correspondence", "Polytope._initialize_from_simplex", "initial faces differ", {"case": core.jsonable(case)})
+            if abs(det_float) <= 1e-12 * scale ** 3:
+                ctx.branch("init", "tie (orientation test within rounding of 0)")
+                continue
+            ctx.broke("correspondence", "Polytope._initialize_from_simplex", "initial faces differ (model exchanged=%d)" % sw,
+                      {"case": core.jsonable(case)})
     for kind, cid, case, kw, it, last, out in plan:
         r = res.get(cid, "bad missing")
         if kind == "step":
@@ -1033,7 +1109,8 @@ def correspondence(ctx):
                 ctx.broke("correspondence", "fix_ccw_normal_direction", r[:200], {"face": before.tolist()})
                 continue
             got = np.array(dec_scalars(parts[2:14])).reshape(4, 3)
-            ctx.branch("fix_ccw(as-is aliasing)", "a==b" if np.array_equal(after[0], after[1]) else "swapped")
+            ctx.branch("fix_ccw sample", "a==b (pre-repair aliasing)" if np.array_equal(after[0], after[1]) and
+                       not np.array_equal(before[0], before[1]) else "vertices 0,1 swapped, normal negated")
             if not np.array_equal(got, after):
                 ctx.broke("correspondence", "fix_ccw_normal_direction",
                           "impl=%s model=%s" % (after.tolist(), got.tolist()), {"face": before.tolist()})
@@ -1096,7 +1173,14 @@ def search(ctx):
     stats = {}
     done = 0
     tries = 0
-    # known-finding witnesses first (replayed on the implementation)
+    # regression scenes of repaired findings first, then the known-finding witnesses (replayed on the implementation)
+    for case in regression_cases():
+        out = run_epa(case["simplex"], make(case["A"]), make(case["B"]))
+        bad = check_case(case, out, rng)
+        ctx.count("regression", key=case_key(case))
+        key = "%s %s" % (case["src"], "holds" if not bad else "FAILS AGAIN")
+        stats[key] = stats.get(key, 0) + 1
+        report(ctx, case, out, bad)
     for k in core.load_known():
         if k.get("property") == "C07" and k.get("status") == "known":
             w = k["witness"]
